@@ -95,4 +95,68 @@ theorem lookup_map_snd (f : Str × J → J) (slots : Dict) (hn : (slots.map Prod
           exact hn.1 (List.mem_map.mpr ⟨(n, v), hm, rfl⟩)
         simp [lookup, hne, ih hn.2 hm]
 
+
+/-! ## options: extra columns -/
+
+theorem restoreExtra_fresh (extra base : Dict) (hn : (extra.map Prod.fst).Nodup)
+    (hd : ∀ k ∈ extra.map Prod.fst, k ∉ base.map Prod.fst) :
+    restoreExtra extra base = base ++ extra.filter fun kv => truthy kv.2 := by
+  induction extra generalizing base with
+  | nil => simp [restoreExtra]
+  | cons kv rest ih =>
+    cases kv with
+    | mk k v =>
+      simp only [List.map_cons, List.nodup_cons] at hn
+      have hk : k ∉ base.map Prod.fst := hd k (by simp)
+      have hc : (base.map Prod.fst).contains k = false := by simpa using hk
+      by_cases ht : truthy v = true
+      · have := ih (base ++ [(k, v)]) hn.2 (by
+          intro k' hk'
+          simp only [List.map_append, List.map_cons, List.map_nil, List.mem_append, List.mem_singleton, not_or]
+          refine ⟨hd k' (by simp [hk']), ?_⟩
+          intro e; subst e; exact hn.1 hk')
+        have hcond : (truthy v && !(base.map Prod.fst).contains k) = true := by rw [ht, hc]; rfl
+        rw [restoreExtra, if_pos hcond, this]
+        simp [List.filter, ht]
+      · have := ih base hn.2 (fun k' hk' => hd k' (by simp [hk']))
+        have hcond : ¬ (truthy v && !(base.map Prod.fst).contains k) = true := by simp [ht]
+        rw [restoreExtra, if_neg hcond, this]
+        simp [List.filter, ht]
+
+theorem ownDump_keys_subset (del : List Str) (slots : Dict) :
+    ∀ k ∈ (ownDump del slots).map Prod.fst, k ∈ slots.map Prod.fst := by
+  intro k hk
+  rw [ownDump_eq_filter] at hk
+  simp only [List.mem_map, List.mem_filter] at hk ⊢
+  obtain ⟨kv, ⟨hkv, _⟩, e⟩ := hk
+  exact ⟨kv, hkv, e⟩
+
+theorem reloadExtra_append (names : List Str) (base f : Dict)
+    (hb : ∀ k ∈ base.map Prod.fst, k ∈ names) (hf : ∀ k ∈ f.map Prod.fst, k ∉ names) :
+    reloadExtra names (base ++ f) = f := by
+  simp only [reloadExtra, List.filter_append]
+  have h1 : base.filter (fun kv => !names.contains kv.1) = [] := by
+    simp only [List.filter_eq_nil_iff]
+    intro kv hkv
+    have := hb kv.1 (List.mem_map.mpr ⟨kv, hkv, rfl⟩)
+    simp [this]
+  have h2 : f.filter (fun kv => !names.contains kv.1) = f := by
+    simp only [List.filter_eq_self]
+    intro kv hkv
+    have := hf kv.1 (List.mem_map.mpr ⟨kv, hkv, rfl⟩)
+    simp [this]
+  rw [h1, h2]; rfl
+
+/-! ## `result[k] = v` -/
+
+theorem lookup_dictInsert (k : Str) (v : J) (d : Dict) : lookup k (dictInsert k v d) = some v := by
+  induction d with
+  | nil => simp [dictInsert, lookup]
+  | cons kv rest ih =>
+    cases kv with
+    | mk k' v' =>
+      by_cases h : k = k'
+      · subst h; simp [dictInsert, lookup]
+      · simp [dictInsert, lookup, h, ih]
+
 end Pyxv.ToJson
